@@ -26,6 +26,7 @@ CONSTANTS MaxOps,    \* number of Ref/Up/Prune operations in a behaviour (all re
                      \* branches, the pruned branches themselves (pruned again) and positions above them.
 
 C(b, r) == [b |-> b, x |-> Ordinary, m |-> 0, r |-> r]
+Ch == [magic |-> "generic", idx |-> FALSE, crc |-> FALSE, cache |-> FALSE, size |-> 1, ob |-> 2, hashes |-> FALSE]
 A == <<1, 0, 1>>            B == <<0, 1, 1, 0, 1, 0, 0, 1>>     D == <<>>     E == <<1, 1, 1, 1, 1, 1, 1, 1, 0>>
 F == <<0>>                  G == [i \in 1..17 |-> i % 2]
 Trees == <<
@@ -52,16 +53,35 @@ MUpd(TA, TB) == LET IA == InfoTable(TA)  IB == InfoTable(TB) IN
 \* `rows` (ordinary cells whose references point into themselves and to row Len(rows) + 1) followed by the table X
 Over(rows, X) == rows \o Shift(X, Len(rows))
 Inner == Over(<< C(F, <<2, 3>>), C(E, <<>>) >>, Proof(Sub2, 1, {<<1>>}))       \* r2[leaf, M2[pruned, leaf]]
+\* c[x[u[u1[u2]]], y[v[v1]]]; Ma over it with u pruned (level 1, depth 2); v pruned beneath Ma (level 2)
+Deep == << C(B, <<2, 6>>), C(E, <<3>>), C(F, <<4>>), C(D, <<5>>), C(A, <<>>), C(G, <<7>>), C(A, <<8>>), C(F, <<>>) >>
+ML1 == Over(<< C(F, <<2, 3>>), C(E, <<>>) >>, Proof(Deep, 1, {<<1, 1>>}))         \* r1[leaf, Ma[c[x[pruned 1], y[v[v1]]]]]
+ML2 == Over(<< C(D, <<2, 3>>), C(G, <<>>) >>, Proof(ML1, 1, {<<2, 1, 2, 1>>}))    \* r0[leaf, Mb[r1[leaf, Ma[c[x[pruned 1], y[pruned 2]]]]]]
 XTrees == <<
   Over(<< C(A, <<2, 3>>), C(G, <<>>) >>, Proof(Sub, 1, {})),                     \* 1 root[leaf, M[c[g1, g2[g3]]]]: proof cell over a whole sub-tree
   Over(<< C(D, <<3, 2>>), C(E, <<>>), C(B, <<4>>) >>, Proof(Sub, 1, {<<1>>})),   \* 2 root[a[M[c[pruned, g2[g3]]]], leaf]: over a partly pruned sub-tree
   Over(<< C(A, <<3, 2>>), C(F, <<>>) >>, MUpd(Body(Proof(Sub2, 1, {<<2>>})), Sub)),  \* 3 root[U[x[y, pruned], c[..]], leaf]: update cell, two children
-  Over(<< C(B, <<2, 3>>), C(D, <<>>) >>, Proof(Inner, 1, {}))                    \* 4 root[leaf, M1[r2[leaf, M2[pruned, leaf]]]]: Merkle depth 2
+  Over(<< C(B, <<2, 3>>), C(D, <<>>) >>, Proof(Inner, 1, {})),                   \* 4 root[leaf, M1[r2[leaf, M2[pruned, leaf]]]]: Merkle depth 2
+  \* sources that already hold pruned branches storing SEVERAL levels (a tree cut out of a proof of a proof ...): written
+  \* by the specification itself, by proving beneath the Merkle cells of an earlier tree (PrunedCellK); the stored depths of
+  \* the levels differ (the lower level stands for the deeper, original sub-tree)
+  Over(<< C(A, <<2, 3>>), C(D, <<>>) >>, Proof(ML1, 1, {<<2, 1, 1>>})),            \* 5 root[leaf, Mb[r1[leaf, Ma[c[pruned MASK 3 (x), y[v[v1]]]]]]]
+  Over(<< C(G, <<2, 3>>), C(A, <<>>) >>, Proof(ML2, 1, {<<2, 1, 2, 1, 1>>, <<2, 1, 2, 1, 2>>})),   \* 6 root[leaf, Mc[r0[leaf, Mb[r1[leaf, Ma[c[pruned MASK 5, pruned MASK 6]]]]]]]
+  Over(<< C(E, <<2, 3>>), C(B, <<>>) >>, Proof(ML2, 1, {<<2, 1, 2, 1>>}))          \* 7 ... Ma[pruned MASK 7 (c)]
 >>
+\* the pruned branches of a table that store more than one level: <<mask, stored depths>>
+MultiLevel(TT) == {<<TT[i].m, LET d == DataBytes(TT[i].b) n == Pop(TT[i].m) IN [q \in 1..n |-> d[1 + 2 + 32 * n + 2 * (q - 1)] * 256 + d[2 + 2 + 32 * n + 2 * (q - 1)]]>>
+                    : i \in {j \in 1..Len(TT) : TT[j].x = Pruned /\ Pop(TT[j].m) > 1}}
+XOK == /\ \A t \in 1..Len(XTrees) : ExoticSourceOK(XTrees[t], 1)
+       /\ {x[1] : x \in MultiLevel(XTrees[5])} = {3} /\ {x[1] : x \in MultiLevel(XTrees[6])} = {5, 6} /\ {x[1] : x \in MultiLevel(XTrees[7])} = {7}
+       /\ \A t \in 5..7 : \A x \in MultiLevel(XTrees[t]) : \A a, b \in 1..Len(x[2]) : a # b => x[2][a] # x[2][b]
+ASSUME Len(XTrees) = 7 /\ (Exotic => XOK)
 SrcTrees == IF Exotic THEN XTrees ELSE Trees
 
-VARIABLES T, hs, stk, ps, nxt, hist, exph, cur, open, nops, done, first
-vars == <<T, hs, stk, ps, nxt, hist, exph, cur, open, nops, done, first>>
+VARIABLES T, hs, stk, ps, nxt, hist, exph, cur, open, nops, done, first, aux
+vars == <<T, hs, stk, ps, nxt, hist, exph, cur, open, nops, done, first, aux>>
+\* aux: (Exotic) the hashes / depths of T and the bag that hands T over, computed once per behaviour (TLC does not keep the
+\* value of a constant definition that goes through RECURSIVE operators)
 \* T: the source table of the prover; hs: the cursor values of the open session (handle h = hs[h + 1], a path; handle 0 is
 \* the value Cursor() returned); stk: (not Hold) the handles from the root value to the current one; ps: the session's prune
 \* set; nxt: (depth-first discipline) for every handle on stk the smallest reference position still allowed below it;
@@ -81,6 +101,7 @@ ASSUME ~(Exotic /\ TwoStep)
 Init == /\ \E t \in 1..Len(SrcTrees) : \E fs \in (IF TwoStep THEN FirstSets(Trees[t]) ELSE {{}}) : first = <<t, fs>> /\ T = Source(t, fs)
         /\ hs = << <<>> >> /\ stk = <<0>> /\ ps = {} /\ nxt = <<1>> /\ cur = 1 /\ hist = << CursorEv(1) >> /\ exph = <<>>
         /\ open = TRUE /\ nops = 0 /\ done = FALSE
+        /\ aux = IF Exotic THEN [info |-> InfoTable(T), bag |-> BytesToHex(Write(T, <<1>>, Ch))] ELSE <<>>
 \* ---- one current cursor (stack)
 DoRef(i) == /\ i <= Refs(Top) /\ (Free \/ i >= nxt[Len(nxt)])
             /\ hs' = Append(hs, Append(hs[Top + 1], i)) /\ stk' = Append(stk, Len(hs))
@@ -96,28 +117,28 @@ Derive(h, i) == /\ i <= Refs(h) /\ Append(hs[h + 1], i) \notin {hs[x] : x \in 1.
                 /\ hist' = Append(hist, Ev("Ref", h, Len(hs), i - 1)) /\ UNCHANGED <<stk, nxt, ps>>
 PruneH(h) == /\ hs[h + 1] \notin ps /\ ps' = ps \cup {hs[h + 1]}
              /\ hist' = Append(hist, Ev("Prune", h, 0, 0)) /\ UNCHANGED <<hs, stk, nxt>>
-Op == /\ open /\ nops < MaxOps
+\* (the deep trees 5..7 need no long scripts: what matters is any proof at all, with the Merkle cells reached or hidden)
+Op == /\ open /\ nops < (IF Exotic /\ first[1] >= 5 THEN 3 ELSE MaxOps)
       /\ IF Hold THEN \E h \in 0..(Len(hs) - 1) : (\E i \in 1..4 : Derive(h, i)) \/ PruneH(h)
          ELSE (\E i \in 1..4 : DoRef(i)) \/ DoUp \/ DoPrune
-      /\ nops' = nops + 1 /\ UNCHANGED <<T, exph, cur, open, done, first>>
+      /\ nops' = nops + 1 /\ UNCHANGED <<T, exph, cur, open, done, first, aux>>
 \* CreateProof through the current cursor value (Hold: the newest one): Proof(T, R, prune set of THIS session)
 Create == /\ open /\ open' = FALSE
           /\ hist' = Append(hist, Ev("Create", IF Hold THEN Len(hs) - 1 ELSE Top, 0, 0))
-          /\ exph' = Append(exph, BytesToHex(ReprHash(InfoTable(Proof(T, 1, ps))[1])))
-          /\ UNCHANGED <<T, hs, stk, ps, nxt, cur, nops, done, first>>
+          /\ exph' = Append(exph, BytesToHex(ReprHash(InfoTable(IF Exotic THEN ProofI(T, aux.info, 1, ps) ELSE Proof(T, 1, ps))[1])))
+          /\ UNCHANGED <<T, hs, stk, ps, nxt, cur, nops, done, first, aux>>
 \* the same prover serves another request: a new cursor session starts with an empty prune set
 NewCursor == /\ ~open /\ cur < MaxReq /\ open' = TRUE /\ cur' = cur + 1
              /\ hs' = << <<>> >> /\ stk' = <<0>> /\ ps' = {} /\ nxt' = <<1>>
              /\ hist' = Append(hist, CursorEv(cur + 1))
-             /\ UNCHANGED <<T, exph, nops, done, first>>
-Finish == /\ ~open /\ done' = TRUE /\ UNCHANGED <<T, hs, stk, ps, nxt, hist, exph, cur, open, nops, first>>
+             /\ UNCHANGED <<T, exph, nops, done, first, aux>>
+Finish == /\ ~open /\ done' = TRUE /\ UNCHANGED <<T, hs, stk, ps, nxt, hist, exph, cur, open, nops, first, aux>>
 Next == ~done /\ (Op \/ Create \/ NewCursor \/ Finish)
 Spec == Init /\ [][Next]_vars
 
 TableJson(TT) == [i \in 1..Len(TT) |-> [b |-> BitsToStr(TT[i].b), x |-> TT[i].x, m |-> TT[i].m, r |-> [j \in 1..Len(TT[i].r) |-> TT[i].r[j] - 1]]]
-Ch == [magic |-> "generic", idx |-> FALSE, crc |-> FALSE, cache |-> FALSE, size |-> 1, ob |-> 2, hashes |-> FALSE]
 Vector == IF Exotic THEN [t |-> "walk", cells |-> TableJson(T), roots |-> <<0>>, script |-> hist, exphash |-> exph, reqs |-> cur, xtree |-> first[1],
-                          bag |-> BytesToHex(Write(T, <<1>>, Ch)), selfcheck |-> ExoticSourceOK(T, 1)]
+                          bag |-> aux.bag, selfcheck |-> TRUE]           \* (XOK is an assumption)
           ELSE IF first[2] = {} THEN [t |-> "walk", cells |-> TableJson(T), roots |-> <<0>>, script |-> hist, exphash |-> exph, reqs |-> cur]
           \* two-step: the source is handed over as the first proof's bag (written by the specification); orig = the level-0 tree
           ELSE [t |-> "walk", cells |-> TableJson(T), roots |-> <<0>>, script |-> hist, exphash |-> exph, reqs |-> cur,
